@@ -447,6 +447,129 @@ def ob_enhanced_structure(metric, ns, ant=2):
     return verify(body, check_side=False, timeout_ms=120000)
 
 
+@obligation("enhanced/stream_count_decision", timeout=300,
+            desc="EnhancedBD with a metric that decides the number of streams ('capacity'; the metric function itself an abstract callee "
+                 "returning an arbitrary real per candidate): K = 2 users with 2 antennas, symbolic real channel, callees as in "
+                 "enhanced/stream_reduction_structure.  For every user the candidates 1 .. Nt streams are evaluated (reduction basis for the "
+                 "user's covariance with that stream count; all streams: no reduction), the metric is asked for the SINRs of each candidate, "
+                 "and the returned solution IS the candidate with the largest metric value (every ordering of the metric values explored): its "
+                 "precoder Ms_k P / norm at power exactly iPu, its receive filter, its stream count")
+def ob_enhanced_decision():
+    def body(c, it):
+        from pyphysim.comm import blockdiagonalization as bd
+        import pyphysim.channels.multiuser as mu
+        import pyphysim.util.misc as misc
+        from .C08 import _install_models
+        draws = []
+        _install_models(c, it, draws)
+
+        def m_randn_real(interp, RS, *shape):
+            m = np.empty(shape, dtype=object)
+            for pos in np.ndindex(*shape):
+                m[pos] = c.fresh_var("h", "real")
+            draws.append(m)
+            return m
+        it.models[misc.randn_c_RS] = m_randn_real
+        K, ant = 2, 2
+        N = K * ant
+        ch = it.call(mu.MultiUserChannelMatrixExtInt, [])
+        it.call(it.getattr(ch, "randomize"), [np.array([ant, ant]), np.array([ant, ant]), K, 1])
+        iPu = c.var("iPu", "real")
+        c.assume(iPu > 0)
+        H = np.asarray(it.getattr(ch, "big_H_no_ext_int"), dtype=object)
+        Msb = _rmat(c, "M", N, N)
+        Re = np.empty(K, dtype=object)
+        for k in range(K):
+            Re[k] = _rmat(c, "R%d" % k, ant, ant)
+        lr_calls, metric_calls = [], []
+        it.models["pyphysim.comm.blockdiagonalization:BlockDiagonalizer._calc_BD_matrix_no_power_scaling"] = \
+            lambda interp, self, chm: (Msb, np.ones(N))
+        it.models["pyphysim.channels.multiuser:MultiUserChannelMatrixExtInt.calc_cov_matrix_extint_plus_noise"] = \
+            lambda interp, self, *a, **k: Re
+
+        def lrsv(interp, A, nn):
+            V0 = _rmat(c, "P%d" % len(lr_calls), np.shape(A)[1], nn)
+            lr_calls.append((A, nn, V0))
+            return V0, None, None
+        it.models["pyphysim.util.misc:least_right_singular_vectors"] = lrsv
+        it.models[misc.least_right_singular_vectors] = lrsv
+
+        def m_metric(interp, sinrs, *a, **k):
+            v = c.fresh_var("metric", "real")
+            metric_calls.append((np.asarray(sinrs, dtype=object), v))
+            return v
+        it.models["pyphysim.util.misc:calc_shannon_sum_capacity"] = m_metric
+        it.models[misc.calc_shannon_sum_capacity] = m_metric
+        it.models[bd.calc_shannon_sum_capacity] = m_metric
+        # the receive filter of a candidate and its SINRs are callees under contract here (proved on their own: enhanced/
+        # stream_reduction_structure, enhanced/linear_sinrs_first_principles): arbitrary symbolic results, arguments recorded
+        filt_calls, sinr_calls = [], []
+
+        def m_filter(interp, Heq, P=None):
+            Wm = _rmat(c, "Wf%d" % len(filt_calls), np.shape(Heq)[1], np.shape(Heq)[0])
+            filt_calls.append((Heq, P, Wm))
+            return Wm
+
+        def m_sinrs(interp, Heq, Wm, Rk):
+            v = np.empty(np.shape(Wm)[0], dtype=object)
+            for i in range(len(v)):
+                v[i] = c.fresh_var("sinr", "real")
+            sinr_calls.append((Heq, Wm, Rk, v))
+            return v
+        it.models["pyphysim.comm.blockdiagonalization:EnhancedBD.calc_receive_filter_user_k"] = m_filter
+        it.models["pyphysim.comm.blockdiagonalization:EnhancedBD._calc_linear_SINRs"] = m_sinrs
+        o = it.call(bd.EnhancedBD, [K, 1.0, 0.1, 0.5])
+        it.setattr(o, "iPu", iPu)
+        it.call(it.getattr(o, "set_ext_int_handling_metric"), ["capacity"])
+        MsPk, Wk, Ns = it.call(it.getattr(o, "block_diagonalize_no_waterfilling"), [ch])
+        goals = [Goal("every user: one reduction request (1 stream) and two metric evaluations (1 and 2 streams)",
+                      len(lr_calls) == K and len(metric_calls) == 2 * K and all(lr_calls[k][0] is Re[k] and lr_calls[k][1] == 1 for k in range(K)))]
+        if not goals[0].cond:
+            return goals
+        for k in range(K):
+            Msk = Msb[:, ant * k:ant * k + ant]
+            m1, m2 = metric_calls[2 * k][1], metric_calls[2 * k + 1][1]
+            ns = int(Ns[k])
+            got = np.asarray(MsPk[k], dtype=object)
+            goals.append(Goal("user %d: stream count == precoder columns == filter rows" % k, got.shape == (N, ns) and np.shape(Wk[k])[0] == ns and ns in (1, 2)))
+            if got.shape != (N, ns) or ns not in (1, 2):
+                continue
+            # the chosen candidate has the largest metric value (first of equal values)
+            goals.append(Goal("user %d: the chosen candidate (%d stream%s) has the largest metric" % (k, ns, "" if ns == 1 else "s"),
+                              (m1 >= m2) if ns == 1 else (m2 > m1)))
+            Pk = lr_calls[k][2] if ns == 1 else np.eye(ant, dtype=object)
+            raw = np.dot(Msk, Pk)
+            goals.append(Goal("user %d: precoder is Ms_k P of the chosen candidate at power exactly iPu" % k,
+                              _meq(got * lift(_sqnorm(raw)).to_real().sqrt(), raw * iPu.sqrt()) & frac_eq(_sqnorm(got), iPu)))
+            cand = 2 * k + (ns - 1)
+            goals.append(Goal("user %d: the returned filter is the chosen candidate's, whose SINRs (for the user's covariance) went into its metric" % k,
+                              len(filt_calls) == 2 * K and len(sinr_calls) == 2 * K and Wk[k] is filt_calls[cand][2]
+                              and sinr_calls[cand][1] is filt_calls[cand][2] and sinr_calls[cand][2] is Re[k]
+                              and all(x is y for x, y in zip(metric_calls[cand][0].flat, sinr_calls[cand][3].flat))))
+        return goals
+    return verify(body, check_side=False, timeout_ms=120000, max_paths=64)
+
+
+@obligation("enhanced/linear_sinrs_first_principles",
+            desc="EnhancedBD._calc_linear_SINRs(Heq, W, R) for symbolic real 2 x 2 matrices: stream i has SINR |(W H)_ii|^2 / (sum_{j != i} "
+                 "|(W H)_ij|^2 + |(W R W^H)_ii|)")
+def ob_enhanced_sinrs():
+    def body(c, it):
+        from pyphysim.comm import blockdiagonalization as bd
+        goals = []
+        # the SINR routine against first principles
+        W, He, R = _rmat(c, "W", 2, 2), _rmat(c, "G", 2, 2), _rmat(c, "Rs", 2, 2)
+        S = it.call(bd.EnhancedBD._calc_linear_SINRs, [He, W, R])
+        T = np.dot(W, He)
+        Q = np.dot(W, np.dot(R, W.T))
+        for i in range(2):
+            num = lift(T[i, i]) * lift(T[i, i])
+            den = lift(T[i, 1 - i]) * lift(T[i, 1 - i]) + abs(lift(Q[i, i]))
+            goals.append(Goal("linear SINR of stream %d == |(W H)_ii|^2 / (sum_j |(W H)_ij|^2 + |(W R W^H)_ii|)" % i, frac_eq(lift(S[i]) * den, num)))
+        return goals
+    return verify(body, check_side=False, timeout_ms=60000)
+
+
 @obligation("whitening/structure_and_filters", timeout=300,
             desc="WhiteningBD.block_diagonalize_no_waterfilling on an ext-int channel (K = 2, one antenna per user and one external "
                  "interferer, symbolic real channel) with the callees under contract - calc_whitening_matrix (arbitrary symbolic "
